@@ -357,6 +357,19 @@ func (c *Ctx) applyContract(st *State, fr *Frame, instr ssa.Instruction, ct *Con
 	}
 	rs := c.freshResults(st, sig)
 	bindResults(env, resultNames(ct, sig), rs)
+	// declared dynamic types of interface results (proved when the callee is verified)
+	for _, cl := range ct.Clauses {
+		if cl.Kind == "returns" {
+			se0 := &SpecEnv{c: c, st: st, vars: env, pkg: ct.Pkg}
+			ty, _ := se0.resolveType(cl.Text)
+			for i, n := range resultNames(ct, sig) {
+				if n == cl.Callee && i < len(rs) {
+					rs[i].Dyn = ty
+					st.assume(fmt.Sprintf("(= (itag %s) %d)", rs[i].S, c.reg.TagOf(ty)))
+				}
+			}
+		}
+	}
 	// frame of the callee (may mention results, e.g. the ghost state of a returned iterator)
 	seA := &SpecEnv{c: c, st: st, vars: env, pkg: ct.Pkg, snapOnly: pre}
 	locs, star := c.evalAssigns(seA, ct, "assigns", 0)
@@ -512,13 +525,10 @@ func (c *Ctx) havocLocs(st *State, pre *MemSnap, locs []Loc, star bool, preTop s
 			keys[l.Key] = true
 		}
 	}
-	if !noalloc {
-		// fresh memory allocated by the callee may hold anything: every leaf memory gets a new
-		// version that agrees with the old one on all previously allocated addresses
-		for key := range c.memSorts {
-			keys[key] = true
-		}
-	}
+	// Memory allocated by the callee (addresses above preTop) needs no new memory version: the
+	// current memory symbols are unconstrained at never-allocated addresses, which is exactly
+	// "arbitrary content"; only the listed locations get a new version.
+	_ = noalloc
 	for key := range keys {
 		c.memSymSort(key)
 	}
@@ -533,16 +543,10 @@ func (c *Ctx) havocLocs(st *State, pre *MemSnap, locs []Loc, star bool, preTop s
 		case strings.HasPrefix(key, "M:"):
 			inf := c.inFrame(locs, key, "a")
 			allowed := inf
-			if !noalloc {
-				allowed = or(inf, "(> (root a) "+preTop+")")
-			}
 			st.assume("(forall ((a Addr)) (! (=> (not " + orFalse(allowed) + ") (= (select " + nw + " a) (select " + old + " a))) :pattern ((select " + nw + " a))))")
 		case strings.HasPrefix(key, "MD:"), strings.HasPrefix(key, "MV:"), key == "ML":
 			inf := c.mapInFrame(locs, "a")
 			allowed := inf
-			if !noalloc {
-				allowed = or(inf, "(> (root a) "+preTop+")")
-			}
 			st.assume("(forall ((a Addr)) (! (=> (not " + orFalse(allowed) + ") (= (select " + nw + " a) (select " + old + " a))) :pattern ((select " + nw + " a))))")
 		case strings.HasPrefix(key, "G:"):
 			// ghost memory: only the listed owners change
@@ -977,11 +981,11 @@ func (c *Ctx) loopHeader(fr *Frame, li *loopInfo, b, pred *ssa.BasicBlock, st *S
 		assignPhis(vals)
 		se := &SpecEnv{c: c, st: st, vars: fr.env, pkg: c.pkgOfFrame(fr), old: fr.entry, fr: fr}
 		for _, cl := range invs {
-			if !c.tagSelected(cl.Tags) {
-				continue
-			}
 			for _, cj := range se.splitConjuncts(cl.E, 0) {
 				g := se.prove(cj)
+				if !c.tagSelected(cl.Tags) {
+					continue
+				}
 				c.oblige(st, fr, firstInstr, "inv-entry", fmt.Sprintf("loop %d invariant holds on entry: %s", li.ordinal, cj.String()), g, cl, cl.Tags)
 			}
 		}
@@ -1017,11 +1021,11 @@ func (c *Ctx) loopHeader(fr *Frame, li *loopInfo, b, pred *ssa.BasicBlock, st *S
 	assignPhis(vals)
 	se := &SpecEnv{c: c, st: st, vars: fr.env, pkg: c.pkgOfFrame(fr), old: fr.entry, fr: fr}
 	for _, cl := range invs {
-		if !c.tagSelected(cl.Tags) {
-			continue
-		}
 		for _, cj := range se.splitConjuncts(cl.E, 0) {
 			g := se.prove(cj)
+			if !c.tagSelected(cl.Tags) {
+				continue
+			}
 			c.oblige(st, fr, firstInstr, "inv-preserved", fmt.Sprintf("loop %d invariant preserved: %s", li.ordinal, cj.String()), g, cl, cl.Tags)
 		}
 	}
